@@ -9,7 +9,9 @@ what the values are, leaked placeholders — F-C10-* — are other properties' b
 characters for the reader).  A conversion that raises is counted in dist (`exceptions`) — totality is C02.
 
 distinct / non-trivial: distinct inputs whose output contains an attribute, an entity reference or an element other
-than `p` (i.e. something the escaping/quoting rules had to act on)."""
+than `p` (i.e. something the escaping/quoting rules had to act on).
+The soups also spell the converter's own ampersand substitute (STX `amp` ETX) in the input: input normalisation removes STX/ETX, so it must
+stay the word `amp` (gen/c05_soups.py AMP)."""
 import markdown
 import htmlread
 from gen import c05_soups as S
